@@ -110,10 +110,14 @@ def showKw (r : Bool) : Option KwKind → String
 
 def parsePerm (s : String) : Option (List Nat) := (s.splitOn ".").mapM (·.toNat?)
 
+/-- units are displayed strictly (Size is shown as Size also when the check is made under the reference-size convention) -/
 def jErr (r : Bool) (x : UnitErr) : String :=
+  let got := match argUnit false x.e with
+    | some u => showUT (some u)
+    | none => showUT (argUnit r x.e)
   arr [qn x.fn, qn x.kw, jE x.e,
-       q (if x.kw == nm! "if" then "the two sides have different units" else showUT (argUnit r x.e)),
-       q (if x.kw == nm! "if" then "equal units" else showKw r (kwExpected x.kw))]
+       q (if x.kw == nm! "if" then "the two sides have different units" else got),
+       q (if x.kw == nm! "if" then "equal units" else showKw false (kwExpected x.kw))]
 
 def handle (toks : List String) : Option String :=
   match toks with
